@@ -354,13 +354,15 @@ class Evaluator:
         if k in self._d:
             return self._d[k]
         if is_comp(op):
-            _, depth1, leaves = graph_parts(op)
-            if not depth1:
+            # a circuit's duration spans everything it contains (statement of C04): earliest start .. latest end over ALL its nodes,
+            # independent of where in the graph an operation hangs
+            nodes = graph_parts(op)[0]
+            if not nodes:
                 v = 0.0
             else:
-                rel = min(self.start(n.operation) for n in depth1)
+                rel = min(self.start(n.operation) for n in nodes)
                 v = 0.0
-                for n in leaves:
+                for n in nodes:
                     delta = self.end(n.operation) - rel
                     if delta > v:
                         v = delta
@@ -427,6 +429,20 @@ SKIP_FIELDS = {"relation", "duration_strategy", "acquisition_strategy", "_acquis
 def value_equal(a, b):
     try:
         return a is not b and a == b and hash(a) == hash(b)
+    except Exception:  # noqa
+        return False
+
+
+def drops_link(op):
+    """unit probe: does this operation's own copy() lose a link whose references are all in the lookup? (sub-circuits are not probed)"""
+    if is_comp(op):
+        return False
+    refs = link_refs(op.relation)[1]
+    if not refs:
+        return False
+    try:
+        c = op.copy({r: r for r in refs})
+        return not link_refs(c.relation)[1]
     except Exception:  # noqa
         return False
 
@@ -593,10 +609,11 @@ def compare_copy(src, res, pairs, cnt):
             # the transfer lookup is keyed by VALUE: a reference with a value-equal twin anywhere in the copied circuit may have been re-pointed to
             # the twin's copy at another level and then re-linked by add (reference not present in that sub-circuit)
             twin_of_ref = next((oo for r in refs for oo, _ in ls if value_equal(oo, r)), None)
-            if twin_of_ref is not None and K not in ("Barrier", "CoordinateShiftOperation"):
+            own_copy_drops = drops_link(o)
+            if twin_of_ref is not None and not own_copy_drops:
                 KK, attr = "CircuitCompositeOperation", "relation-re-pointed-to-value-equal-twin:" + \
                     ("twin-sub-circuits" if is_comp(twin_of_ref) else "twin-operations")
-        if attr == "relation-not-kept":
+        if attr == "relation-not-kept" and not drops_link(o):
             par = {id(oo): pp for oo, pp in ls}
             if want[0] == "multi" and got[0] == "multi" and got[1:-1] == want[1:-1] and len(grefs) < len(mrefs):
                 kept = [m for m in mrefs if any(g is m for g in grefs)]
@@ -607,7 +624,7 @@ def compare_copy(src, res, pairs, cnt):
                 KK, attr = "CircuitCompositeOperation", "relation-across-sub-circuit-levels-not-kept"
             elif want[0] == "multi" and any(par.get(id(r)) is not p for r in refs):
                 KK, attr = "CircuitCompositeOperation", "relation-across-sub-circuit-levels-not-kept"
-        if attr == "relation-not-kept" and want[0] == "multi":
+        if attr == "relation-not-kept" and want[0] == "multi" and not drops_link(o):
             KK = "MultiRelationLink"
         dev(KK, attr, i, {"operation": K, "link": show_link(got, idx_r)}, show_link(want, idx_s))
 
@@ -621,8 +638,9 @@ def compare_copy(src, res, pairs, cnt):
             twins = True
             break
         seen.append(o)
-    tw = ":with-value-equal-operations-in-the-original" if twins else ""
-    if not twins and any(type(o.relation).__name__ == "MultiRelationLink" and len(o.relation._reference_nodes) > 1 for o, _ in ls):
+    tw = ""      # (value-equal twins change the listing only through a re-pointed relation, which is reported on its own)
+    _ = twins
+    if any(type(o.relation).__name__ == "MultiRelationLink" and len(o.relation._reference_nodes) > 1 for o, _ in ls):
         tw = ":with-multi-links-in-the-original"     # the graph position of a multi-linked operation follows the latest reference at add time
     if type(res) is not type(src):
         dev("CircuitCompositeOperation", "kind", "root", type(res).__name__, type(src).__name__)
@@ -648,7 +666,9 @@ def compare_copy(src, res, pairs, cnt):
             first = next((d for d in devs if not d["attr"].startswith("schedule")), None)
             i = next((i for i, (x, y) in enumerate(zip(a, b)) if abs(x[0] - y[0]) > EPS or abs(x[1] - y[1]) > EPS), None)
             # a consequence of an already recorded deviation is counted, not reported under a second key
-            dev("CircuitCompositeOperation", "schedule-relative-to-own-start:without-any-field-or-relation-deviation", i, b, a, derived=first is not None)
+            ml = ":with-multi-links-in-the-original" if any(type(o.relation).__name__ == "MultiRelationLink" and len(o.relation._reference_nodes) > 1
+                                                            for o, _ in ls) else ""
+            dev("CircuitCompositeOperation", "schedule-relative-to-own-start:without-any-field-or-relation-deviation" + ml, i, b, a, derived=first is not None)
     return devs, M
 
 
